@@ -440,6 +440,14 @@ impl<'a> Parser<'a> {
     /// # }
     /// ```
     pub fn parse_statements(&mut self) -> Result<Vec<Statement>, ParserError> {
+        self.parse_statement_list(false)
+    }
+
+    /// Parse statements separated by semicolons. Inside a `BEGIN .. END` block
+    /// (`in_block`) the list also ends in front of an `END` keyword that follows
+    /// a statement, and the caller consumes that keyword; at the top level only
+    /// the end of the input ends the list.
+    fn parse_statement_list(&mut self, in_block: bool) -> Result<Vec<Statement>, ParserError> {
         let mut stmts = Vec::new();
         let mut expecting_statement_delimiter = false;
         loop {
@@ -453,7 +461,7 @@ impl<'a> Parser<'a> {
 
                 // end of statement
                 Token::Word(word) => {
-                    if expecting_statement_delimiter && word.keyword == Keyword::END {
+                    if in_block && expecting_statement_delimiter && word.keyword == Keyword::END {
                         break;
                     }
                 }
@@ -12150,7 +12158,7 @@ impl<'a> Parser<'a> {
         let params = self.parse_optional_procedure_parameters()?;
         self.expect_keyword(Keyword::AS)?;
         self.expect_keyword(Keyword::BEGIN)?;
-        let statements = self.parse_statements()?;
+        let statements = self.parse_statement_list(true)?;
         self.expect_keyword(Keyword::END)?;
         Ok(Statement::CreateProcedure {
             name,
